@@ -23,11 +23,7 @@ def canon_state(agg) -> str:
     runs, launches = agg.finalize_all()
     rs = sorted((dataclasses.asdict(r) for r in runs), key=lambda d: d["run_id"])
     ls = sorted((dataclasses.asdict(l) for l in launches), key=lambda d: (d["run_space_launch_id"], d["run_space_attempt"]))
-    for r in rs:
-        for k in ("problems", "missing_nodes", "orphan_nodes", "nonterminal_nodes"):
-            r[k] = sorted(r[k])
-    for l in ls:
-        l["problems"] = sorted(l["problems"])
+    # (the lists inside a verdict are compared as emitted: a list whose order follows the ingestion order is an order-dependent verdict)
     return json.dumps({"runs": rs, "launches": ls}, sort_keys=True, default=repr)
 
 
@@ -109,6 +105,52 @@ def impl_verdict(records: Sequence[dict]) -> dict:
     return {"runs": out_runs, "launches": out_l}
 
 
+def set_facts(v: dict) -> dict:
+    """The part of a verdict the documentation defines for ANY set of records (not only prefixes of a trace): the problems named, the
+    missing nodes, the launch roll-up; the status of a run that has at least one lifecycle edge (complete iff both) and of a launch
+    whose start was seen (complete iff also its end was seen and every attached run is complete)."""
+    runs = {rid: {"problems": r["problems"], "missing_nodes": r["missing_nodes"],
+                  "status": r["status"] if len([p for p in r["problems"] if p.startswith("missing_pipeline_")]) < 2 else None}
+            for rid, r in v["runs"].items()}
+    launches = {k: {"problems": l["problems"], "runs_total": l["runs_total"], "runs_by_status": l["runs_by_status"], "planned_run_count": l["planned_run_count"],
+                    "status": l["status"] if "missing_run_space_start" not in l["problems"] else None} for k, l in v["launches"].items()}
+    return {"runs": runs, "launches": launches}
+
+
+def _ref_with_impl_statuses(members: List[dict], agg) -> dict:
+    """Reference verdict of a record set; where the documentation leaves a run's status open (no lifecycle edge at all) the roll-up is
+    computed from the status the aggregator itself gives that run - the roll-up must equal the counts of its runs' verdicts."""
+    ref = ref_verdict(members)
+    impl = impl_verdict_of(agg)
+    for rid, r in ref["runs"].items():
+        if len([p for p in r["problems"] if p.startswith("missing_pipeline_")]) == 2 and rid in impl["runs"]:
+            r["status"] = impl["runs"][rid]["status"]
+    for key, l in ref["launches"].items():
+        counts = {"complete": 0, "partial": 0, "invalid": 0}
+        for r in members:
+            pass
+        # recount with the (possibly adopted) run statuses
+        runs_of = {r["run_id"] for r in members if r.get("record_type") == "pipeline_start" and r.get("run_space_launch_id") is not None
+                   and f"{r['run_space_launch_id']}#{int(r['run_space_attempt'])}" == key}
+        for rid in runs_of:
+            counts[ref["runs"][rid]["status"]] += 1
+        l["runs_by_status"] = counts
+        if "missing_run_space_start" not in l["problems"]:
+            l["status"] = "complete" if ("missing_run_space_end" not in l["problems"] and not counts["partial"] and not counts["invalid"]) else "partial"
+    return ref
+
+
+def impl_verdict_of(agg) -> dict:
+    a = copy.deepcopy(agg)
+    runs, launches = a.finalize_all()
+    out_runs = {r.run_id: {"status": r.status, "problems": sorted(p for p in r.problems), "missing_nodes": sorted(r.missing_nodes),
+                           "orphan_nodes": sorted(r.orphan_nodes)} for r in runs}
+    out_l = {f"{l.run_space_launch_id}#{l.run_space_attempt}": {
+        "status": l.status, "problems": sorted(l.problems), "runs_total": l.summary.get("runs_total"),
+        "runs_by_status": l.summary.get("runs_by_status"), "planned_run_count": l.summary.get("planned_run_count")} for l in launches}
+    return {"runs": out_runs, "launches": out_l}
+
+
 # ---- (b) subset lattice ------------------------------------------------------------------------------
 
 def lattice_search(records: List[dict], pick: Optional[List[int]] = None):
@@ -165,6 +207,12 @@ def lattice_search(records: List[dict], pick: Optional[List[int]] = None):
                     canon[m2] = c1
                     nxt[m2] = a
                     states += 1
+                    # the verdict of this SET of records, as far as the documentation defines it for arbitrary sets
+                    members = [records[i] for i in _members(m2, idx)]
+                    got, exp = set_facts(impl_verdict_of(a)), set_facts(_ref_with_impl_statuses(members, a))
+                    if got != exp and not any(v[0] == "wrong-verdict-for-record-set" for v in viols):
+                        viols.append(("wrong-verdict-for-record-set", f"records {_members(m2, idx)}: aggregator says {got}, the documented rules give {exp}",
+                                      {"subset": _members(m2, idx), "last": idx[j], "kind": "lattice-set"}))
         level = nxt
     return states, transitions, viols, len(set(canon.values()))
 
